@@ -281,6 +281,7 @@ type PM = PeerManager<
 	IgnoringMessageHandler,
 >;
 
+#[allow(dead_code)]
 struct Node {
 	pm: PM,
 	log: Log,
@@ -360,6 +361,7 @@ fn honest(seed: u64, n_msgs: usize, profile: &str) -> String {
 	let mut queued = 0usize;
 	let mut steps = 0usize;
 	let mut read_err = false;
+	let mut pending_kind = [0u8; 2];
 	let (p_short, p_zero, p_onebyte, burst): (u64, u64, u64, usize) = match profile {
 		"smooth" => (0, 0, 5, 64),
 		"tiny" => (30, 10, 60, 4),
@@ -385,11 +387,20 @@ fn honest(seed: u64, n_msgs: usize, profile: &str) -> String {
 			// queue a burst of messages on a seeded side
 			let side = (r.below(3) == 0) as usize;
 			let k = 1 + r.below(burst as u64) as usize;
+			// `process_events` drains the channel handler before the custom handler, so a burst
+			// holds messages of one handler only and a change of handler is preceded by a
+			// `process_events`: the order queued here is then the order the PeerManager enqueues
+			let burst_kind = r.below(100);
+			let is_chan = burst_kind < 14;
+			if pending_kind[side] != 0 && pending_kind[side] != (1 + is_chan as u8) {
+				nodes[side].pm.process_events();
+			}
+			pending_kind[side] = 1 + is_chan as u8;
 			for _ in 0..k {
 				if queued >= n_msgs {
 					break;
 				}
-				let kind = r.below(100);
+				let kind = if is_chan { r.below(14) } else { 50 };
 				if kind < 8 {
 					let m = msgs::ChannelReady {
 						channel_id: ChannelId([r.next() as u8; 32]),
@@ -436,6 +447,7 @@ fn honest(seed: u64, n_msgs: usize, profile: &str) -> String {
 				}
 			}
 			nodes[side].pm.process_events();
+			pending_kind[side] = 0;
 			continue;
 		}
 		if act < 60 {
@@ -454,7 +466,7 @@ fn honest(seed: u64, n_msgs: usize, profile: &str) -> String {
 		let may_read = socks[other].st.lock().unwrap().read_ok;
 		if avail > 0 && may_read {
 			let x = r.below(100);
-			let k = if x < p_onebyte { 1 } else if x < p_onebyte + 25 { 1 + r.below(40) as usize } else if x < 90 { 1 + r.below(5000) as usize } else { avail };
+			let k = if x < p_onebyte { 1 } else if x < p_onebyte + 25 { 1 + r.below(40) as usize } else if x < 97 { 1 + r.below(5000) as usize } else { avail };
 			let k = core::cmp::min(k, avail);
 			let chunk: Vec<u8> = socks[side].st.lock().unwrap().out.drain(..k).collect();
 			n_frag += 1;
@@ -471,6 +483,7 @@ fn honest(seed: u64, n_msgs: usize, profile: &str) -> String {
 			}
 			if r.below(3) > 0 {
 				nodes[other].pm.process_events();
+				pending_kind[other] = 0;
 			}
 			continue;
 		}
@@ -481,6 +494,7 @@ fn honest(seed: u64, n_msgs: usize, profile: &str) -> String {
 				socks[side].st.lock().unwrap().plan.clear();
 				let before = socks[side].st.lock().unwrap().total_out;
 				nodes[side].pm.process_events();
+				pending_kind[side] = 0;
 				let _ = nodes[side].pm.write_buffer_space_avail(&mut socks[side].clone());
 				if socks[side].st.lock().unwrap().total_out != before {
 					moved = true;
@@ -493,6 +507,7 @@ fn honest(seed: u64, n_msgs: usize, profile: &str) -> String {
 			// make progress: the paused side gets room to write
 			for side in 0..2 {
 				nodes[side].pm.process_events();
+				pending_kind[side] = 0;
 				if socks[side].st.lock().unwrap().short_pending && r.below(2) == 0 {
 					socks[side].st.lock().unwrap().short_pending = false;
 					let _ = nodes[side].pm.write_buffer_space_avail(&mut socks[side].clone());
